@@ -104,6 +104,25 @@ def harness_for(cfg):
 
     def h(E):
         mm = MemoryMap(addr_width=aw, data_width=ROOT_DW, alignment=al)
+        log = []            # the calls that SUCCEEDED, as replayable closures f(map) -> result
+
+        def reference():
+            """a fresh map that has seen only the successful calls (never a refused one)"""
+            ref = MemoryMap(addr_width=aw, data_width=ROOT_DW, alignment=al)
+            for f in log:
+                f(ref)
+            return ref
+
+        def outcome(f, m):
+            try:
+                return ("ok",) + tuple(f(m))
+            except (ValueError, TypeError):
+                return ("raise",)
+
+        def same_outcome(a, b):
+            if a[0] != b[0] or len(a) != len(b):
+                return False
+            return b_and(*[x == y for x, y in zip(a[1:], b[1:])])
         items = []          # accepted: (kind, obj, start, end)
         cur = 0             # model of the placement cursor
         frozen = False
@@ -142,12 +161,14 @@ def harness_for(cfg):
             cur_before = align_up(cur, al)
             if kd["k"] == "align":
                 got = mm.align_to(kd["to"])
+                log.append(lambda m, k=kd["to"]: (m.align_to(k),))
                 cur = align_up(cur, max(kd["to"], al))
                 E.prove(got == cur, "align_to returns the first suitably aligned address at or after the cursor")
                 E.observe("align", got)
                 continue
             if kd["k"] == "freeze":
                 mm.freeze()
+                log.append(lambda m: (m.freeze(),))
                 frozen = True
                 continue
             # ---- an add ------------------------------------------------------------------------------
@@ -168,17 +189,28 @@ def harness_for(cfg):
                 E.prove(mm.align_to(0) == cur_before, "failed call moved the placement cursor")
                 continue
             addr = E.int(f"a{n}", 0, top + 2) if kd["addr"] else None
+            nm = (f"n{n % 2}",)            # names are reused: a refused call must not keep its name reserved
+            if kd["k"] == "res":
+                size = E.int(f"z{n}", 0, top + 2)
+
+                def call(m, size=size, addr=addr, kd=kd, nm=nm):
+                    return m.add_resource(Res(), name=nm, addr=addr, size=size, alignment=kd["al"])
+            else:
+                def call(m, addr=addr, kd=kd, nm=nm):
+                    return m.add_window(MemoryMap(addr_width=kd["waw"], data_width=kd["wdw"], alignment=kd["wal"]),
+                                        name=nm, addr=addr, sparse=kd["sparse"])
+            # differential: the same call on a map that never saw the refused calls must have the same outcome
+            ref_out = outcome(call, reference())
             try:
                 if kd["k"] == "res":
-                    size = E.int(f"z{n}", 0, top + 2)
                     obj = pool[n]
-                    start, end = mm.add_resource(obj, name=(f"r{n}",), addr=addr, size=size, alignment=kd["al"])
+                    start, end = mm.add_resource(obj, name=nm, addr=addr, size=size, alignment=kd["al"])
                     eff = max(al, kd["al"] or 0)
                     need = align_up(b_max(size, 1, E), eff)
                     ratio = 1
                 else:
                     obj = MemoryMap(addr_width=kd["waw"], data_width=kd["wdw"], alignment=kd["wal"])
-                    start, end, ratio = mm.add_window(obj, name=(f"w{n}",), addr=addr, sparse=kd["sparse"])
+                    start, end, ratio = mm.add_window(obj, name=nm, addr=addr, sparse=kd["sparse"])
                     exp_ratio = 1 if kd["sparse"] in (None, True) else ROOT_DW // kd["wdw"]
                     E.prove(ratio == exp_ratio, "window ratio")
                     need = (1 << kd["waw"]) // exp_ratio
@@ -187,8 +219,12 @@ def harness_for(cfg):
                 E.observe("raise")
                 same(before, snapshot(), "query results")
                 E.prove(mm.align_to(0) == cur_before, "failed call moved the placement cursor")
+                E.prove(ref_out[0] == "raise", "a call is refused only because of an earlier REFUSED call (half-applied state)")
                 continue
             E.observe("ok", start, end)
+            got = ("ok", start, end) + ((ratio,) if kd["k"] == "win" else ())
+            E.prove(same_outcome(ref_out, got), "earlier refused calls changed the outcome of a later call")
+            log.append(call)
             E.prove(not frozen, "add accepted after freeze()")
             E.prove(b_and(0 <= start, start < end, end <= top), "range inside [0, 2**addr_width)")
             E.prove(end - start >= need, "range covers the requested size rounded to the effective alignment")
